@@ -7,8 +7,9 @@ from ..runner import Part, Violation
 
 ID = "C02"
 RULE = ("model-based histories (<= 25 steps after an optional initial document) of add_line (string or "
-        "Line instance; forward references, self-links, hairpins, parallel edges, nested groups), rm by "
-        "name / by instance, disconnect and rename, each step legal in the text-level model; after EVERY "
+        "Line instance; forward references, self-links, hairpins, parallel edges, nested groups, groups "
+        "defined in several lines), rm by name / by instance, disconnect, remove-and-add-again of the same "
+        "Line object, and rename, each step legal in the text-level model; after EVERY "
         "step the closure/symmetry/ownership/registry invariants are evaluated on the real Gfa and the "
         "back-reference collections of defined lines are compared with the model; non-trivial = the "
         "history removes a line with >= 2 dependants, or defines an identifier that was a placeholder, "
@@ -66,11 +67,11 @@ def prop(case):
     return labels
 
 
-def st_case(version):
+def st_case(version, group_bias=0.0):
     @st.composite
     def s(draw):
         r = draw(st.randoms(use_true_random=False))
-        h = H.gen_history(r, version, {"p_rm": 0.25, "p_rename": 0.1})
+        h = H.gen_history(r, version, {"p_rm": 0.25, "p_rename": 0.1, "group_bias": group_bias, "p_readd": 0.07})
         h["vlevel"] = gen.choice(r, [0, 1, 1, 2, 3])
         return h
     return s()
@@ -79,4 +80,6 @@ def st_case(version):
 def parts(tier):
     n = 150 if tier == "quick" else 700
     return [Part("gfa1", prop, strategy=st_case("gfa1"), n=n, quick_shards=2),
-            Part("gfa2", prop, strategy=st_case("gfa2"), n=n, quick_shards=2)]
+            Part("gfa2", prop, strategy=st_case("gfa2"), n=n, quick_shards=2),
+            Part("gfa2-groups", prop, strategy=st_case("gfa2", 0.5), n=n, quick_shards=2,
+                 note="half of the added records are O/U lines, 30% of them further lines of an existing group")]
